@@ -105,6 +105,15 @@ m("c05-commit-on-failed", "C05", "x/evm/keeper/state_transition.go",
 m("c06-default-falls-through", "C06", "app/ante/ante.go",
   "\t\t\t\tdefault:\n\t\t\t\t\treturn ctx, errorsmod.Wrapf(\n\t\t\t\t\t\terrortypes.ErrUnknownExtensionOptions,\n\t\t\t\t\t\t\"rejecting tx with unsupported extension option: %s\", typeURL,\n\t\t\t\t\t)",
   "\t\t\t\tdefault:\n\t\t\t\t\t_ = errortypes.ErrUnknownExtensionOptions\n\t\t\t\t\tanteHandler = newCosmosAnteHandler(options)", "unknown-option-rejected")
+m("c06-exec-grantable", "C06", "app/ante/handler_options.go",
+  "\t\t\tsdk.MsgTypeURL(&authz.MsgExec{}),\n\t\t),\n\t\tante.NewSetUpContextDecorator(),\n\t\tante.NewExtensionOptionsDecorator",
+  "\t\t),\n\t\tante.NewSetUpContextDecorator(),\n\t\tante.NewExtensionOptionsDecorator", "exec-is-not-grantable",
+  "the Cosmos route's limiter no longer bars grants of MsgExec (the EIP-712 one still does)")
+m("c06-router-to-a-new-dispatcher", "C06", "app/app.go",
+  "\tapp.AuthzKeeper = authzkeeper.NewKeeper(keys[authzkeeper.StoreKey], appCodec, app.MsgServiceRouter(), app.AccountKeeper)\n",
+  "\tapp.AuthzKeeper = authzkeeper.NewKeeper(keys[authzkeeper.StoreKey], appCodec, app.MsgServiceRouter(), app.AccountKeeper)\n\tverifKeepRouter(app.MsgServiceRouter())\n",
+  "router-receiver", "an untabled function receives the message service router",
+  extra=[("func (app *Haqq) setAnteHandler(", "func verifKeepRouter(_ *baseapp.MsgServiceRouter) {}\n\nfunc (app *Haqq) setAnteHandler(")])
 m("c06-eip712-no-reject", "C06", "app/ante/handler_options.go",
   "func newLegacyCosmosAnteHandlerEip712(options HandlerOptions) sdk.AnteHandler {\n\treturn sdk.ChainAnteDecorators(\n\t\tcosmosante.RejectMessagesDecorator{}, // reject MsgEthereumTxs\n",
   "func newLegacyCosmosAnteHandlerEip712(options HandlerOptions) sdk.AnteHandler {\n\treturn sdk.ChainAnteDecorators(\n", "newLegacyCosmosAnteHandlerEip712#reject-first")
